@@ -475,6 +475,24 @@ func (rep *Report) reportViolation(o *Obligation) {
 		"solver_status": o.Res.Status, "solver": o.Res.Solver, "solver_output": o.Res.Raw,
 		"smt_file": filepath.Join(verifDir, "out", rep.Prop.ID, mangle(o.Name)+".smt2"),
 	}
+	if o.Res.Status == "sat" && o.vc != nil {
+		// the solver has a model of the negated obligation: record the values it gives to the
+		// function's parameters (not replayed on the real code, hence still no-failing-input-found)
+		var terms []string
+		for name, srt := range o.vc.declared {
+			if (srt == SInt || srt == SBool) && strings.HasPrefix(name, "p_") {
+				terms = append(terms, name)
+			}
+		}
+		sort.Strings(terms)
+		if len(terms) > 0 {
+			dir := filepath.Join(verifDir, "out", rep.Prop.ID)
+			ensureDir(dir)
+			if m, _ := getModel(o.vc.query(o.Mark, nil, o.Goal, true), dir, o.Name, terms, 20); len(m) > 0 {
+				content["solver_counterexample_parameters"] = m
+			}
+		}
+	}
 	suffix := " no-failing-input-found"
 	if rp := tryReplay(rep, o, content); rp {
 		suffix = ""
